@@ -597,7 +597,11 @@ func (st *State) mathInt(v *Term, t types.Type) *Term {
 		r := mk(SInt, 0, "(let ((u!x (bv2int %s))) (ite (>= u!x %s) (- u!x %s) u!x))", v.S, new(big.Int).Rsh(m, 1).String(), m.String())
 		return r
 	}
-	return mk(SInt, 0, "(bv2int %s)", v.S)
+	r := mk(SInt, 0, "(bv2int %s)", v.S)
+	r.FromBV = v
+	r.Lo = big.NewInt(0)
+	r.Hi = new(big.Int).Sub(new(big.Int).Lsh(big.NewInt(1), uint(v.W)), big.NewInt(1))
+	return r
 }
 
 // fromMathInt converts an Int term into the representation of Go type t.
